@@ -1,8 +1,99 @@
-(* Props/C08.v — type simplification reaches a stable normal form.  Statements only; proofs are in Proofs/. *)
+(* Props/C08.v — type simplification reaches a stable normal form.  Statements only; proofs in Proofs/NormalForm.v.
+   nf / ordered / nfo / raw_* are the decidable predicates of Sem/NF.v; wf3, opt_top, lits_bounded, samples_wf are the
+   decidable side conditions the proofs forced (each refuted without it, see the *_refuted examples). *)
 From Coq Require Import List Bool Arith NArith.
-From J2M.Model Require Import Base Union Merge Optimize.
+From J2M.Model Require Import Base Union Merge Optimize Detect.
 From J2M.Sem Require Import NF.
+From J2M.Proofs Require Import NormalForm.
 Import ListNotations.
+
+Theorem C08_mk_union_raw_ok :
+  forall ts : list ty,
+       (forall t : ty, In t (flatten_union ts) -> is_opt t = false /\ is_ptr t = false) ->
+       mk_union ts <> nil -> raw_union_ok (mk_union ts) = true.
+Proof. exact NormalForm.mk_union_raw_ok. Qed.
+
+Theorem C08_generate_nfo :
+  forall (registry : list pseudo) (replaces : list (pseudo * pseudo)) (accepts : pseudo -> str -> bool)
+         (n_regex : nat) (key_matches : nat -> str -> bool) (dict_fields : list str) 
+         (fuel : nat) (samples : list (list (str * json))) (fs : fields),
+       generate registry replaces accepts n_regex key_matches dict_fields fuel samples = Some fs ->
+       nfo registry (TObj fs) = true.
+Proof. exact NormalForm.generate_nfo. Qed.
+
+Theorem C08_generate_second_pass_id :
+  forall (registry : list pseudo) (replaces : list (pseudo * pseudo)) (accepts : pseudo -> str -> bool)
+         (n_regex : nat) (key_matches : nat -> str -> bool) (dict_fields : list str) 
+         (fuel : nat) (samples : list (list (str * json))) (fs : fields) (peq : N -> N -> bool) 
+         (fuel' : nat) (fs' : fields),
+       samples_wf samples = true ->
+       generate registry replaces accepts n_regex key_matches dict_fields fuel samples = Some fs ->
+       optimize_fields registry replaces peq fuel' fs = Some fs' -> fs' = fs.
+Proof. exact NormalForm.generate_second_pass_id. Qed.
+
+Theorem C08_generate_second_pass_total :
+  forall (registry : list pseudo) (replaces : list (pseudo * pseudo)) (accepts : pseudo -> str -> bool)
+         (n_regex : nat) (key_matches : nat -> str -> bool) (dict_fields : list str) 
+         (fuel : nat) (samples : list (list (str * json))) (fs : fields) (peq : N -> N -> bool),
+       samples_wf samples = true ->
+       generate registry replaces accepts n_regex key_matches dict_fields fuel samples = Some fs ->
+       exists n : nat,
+         forall fuel' : nat, n <= fuel' -> optimize_fields registry replaces peq fuel' fs = Some fs.
+Proof. exact NormalForm.generate_second_pass_total. Qed.
+
+Theorem C08_optimize_raw_nfo :
+  forall (registry : list pseudo) (replaces : list (pseudo * pseudo)) (fuel : nat) (t t' : ty),
+       raw_field t = true ->
+       opt_top t = true ->
+       lits_bounded t = true -> optimize registry replaces N.eqb fuel t = Some t' -> nfo registry t' = true.
+Proof. exact NormalForm.optimize_raw_nfo. Qed.
+
+Theorem C08_optimize_fields_nfo :
+  forall (registry : list pseudo) (replaces : list (pseudo * pseudo)) (fuel : nat) (fs fs' : fields),
+       raw_fields fs = true ->
+       opt_top (TObj fs) = true ->
+       lits_bounded (TObj fs) = true ->
+       optimize_fields registry replaces N.eqb fuel fs = Some fs' -> nfo registry (TObj fs') = true.
+Proof. exact NormalForm.optimize_fields_nfo. Qed.
+
+Theorem C08_optimize_nfo_id :
+  forall (registry : list pseudo) (replaces : list (pseudo * pseudo)) (peq : N -> N -> bool)
+         (fuel : nat) (t t' : ty),
+       nfo registry t = true -> wf3 t = true -> optimize registry replaces peq fuel t = Some t' -> t' = t.
+Proof. exact NormalForm.optimize_nfo_id. Qed.
+
+Theorem C08_optimize_total_nfo :
+  forall (registry : list pseudo) (replaces : list (pseudo * pseudo)) (peq : N -> N -> bool) (t : ty),
+       nfo registry t = true ->
+       wf3 t = true ->
+       exists n : nat, forall fuel : nat, n <= fuel -> optimize registry replaces peq fuel t <> None.
+Proof. exact NormalForm.optimize_total_nfo. Qed.
+
+Theorem C08_optimize_raw_nfo_refuted_literal :
+  raw_field cex_lit = true /\
+       opt_top cex_lit = true /\
+       match optimize (PInt :: nil) nil N.eqb 10 cex_lit with
+       | Some t => nfo (PInt :: nil) t
+       | None => true
+       end = false.
+Proof. exact NormalForm.optimize_raw_nfo_refuted_literal. Qed.
+
+Theorem C08_optimize_raw_nfo_refuted_optional :
+  raw_field cex_opt = true /\
+       lits_bounded cex_opt = true /\
+       match optimize nil nil N.eqb 10 cex_opt with
+       | Some t => nfo nil t
+       | None => true
+       end = false.
+Proof. exact NormalForm.optimize_raw_nfo_refuted_optional. Qed.
+
+Theorem C08_optimize_nfo_id_refuted_keys :
+  nfo nil cex3_keys = true /\
+       match optimize nil nil N.eqb 10 cex3_keys with
+       | Some t => ty_eqb t cex3_keys
+       | None => true
+       end = false.
+Proof. exact NormalForm.optimize_nfo_id_refuted_keys. Qed.
 
 (* non-vacuity: a non-trivial raw field set, its normal form, and the second pass *)
 Definition ex_raw : fields :=
